@@ -36,6 +36,9 @@ def replay_search(work, groups, coloc, out, budget):
     eps = EPS * scale
 
     def place_layer(l, loads):
+        if not work[l]:
+            yield dict(loads)   # a layer without factors places nothing and constrains nothing
+            return
         ws = set(out[l].values())
         gl = [sum(loads[w] for w in g) for g in groups]
         gi = [i for i, g in enumerate(groups) if ws <= set(g)]
@@ -226,6 +229,8 @@ def random_case(rng):
     work = {}
     for i in range(nl):
         nf = rng.choice([1, 2, 2, 2, 3])
+        if rng.random() < 0.03:
+            nf = 0   # a layer without factors ("any number of layers and factors")
         fs = (['A', 'G', 'X'] if rng.random() < 0.8 else ['G', 'A', 'X'])[:nf]
         work[f'layer{i}' if rng.random() < 0.9 else f'm.{i}'] = {f: cost(i) for f in fs}
     return work, groups, world, rng.random() < 0.5
